@@ -50,10 +50,14 @@ pub enum Who {
     Admin(u16),
     /// k-th non-admin sender that was granted an allowance or permissions at some point
     Granted(u16),
+    /// k-th non-admin sender that has a visible allowance or a permission flag now
+    Holding(u16),
     /// k-th non-admin sender that never received a grant
     Plain(u16),
     /// k-th sender that used to be admin and is not any more
     Removed(u16),
+    /// k-th actor that is not an admin now (the same address as `Sp::NonAdmin(k)`)
+    NonAdmin(u16),
 }
 
 /// the subkey an allowance / permission call refers to
@@ -295,6 +299,7 @@ fn grantable_msg() -> BoxedStrategy<MsgSpec> {
 fn who(admin: u32, granted: u32, plain: u32, removed: u32, actor: u32) -> BoxedStrategy<Who> {
     let arms: Vec<(u32, BoxedStrategy<Who>)> = vec![
         (admin, any::<u16>().prop_map(Who::Admin).boxed()),
+        (granted * 2, any::<u16>().prop_map(Who::Holding).boxed()),
         (granted, any::<u16>().prop_map(Who::Granted).boxed()),
         (plain, any::<u16>().prop_map(Who::Plain).boxed()),
         (removed, any::<u16>().prop_map(Who::Removed).boxed()),
@@ -329,6 +334,7 @@ fn admin_list() -> BoxedStrategy<Vec<u8>> {
 struct OpWeights {
     exec: u32,
     mixed: u32, // Execute: grantable prefix + one arbitrary last message, by a granted subkey
+    covered: u32, // Execute: 1-4 grantable messages by a granted subkey
     freeze: u32,
     upd: u32,
     incr: u32,
@@ -341,10 +347,10 @@ struct OpWeights {
 
 fn op_weights(prop: &str, subkeys: bool) -> OpWeights {
     let mut w = match prop {
-        "C08" => OpWeights { exec: 12, mixed: 2, freeze: 0, upd: 1, incr: 8, decr: 3, perm: 1, adv: 5, regrant: 2 },
-        "C17" => OpWeights { exec: 3, mixed: 0, freeze: 1, upd: 9, incr: 3, decr: 2, perm: 3, adv: 1, regrant: 0 },
+        "C08" => OpWeights { exec: 12, mixed: 1, covered: 3, freeze: 0, upd: 1, incr: 8, decr: 3, perm: 1, adv: 5, regrant: 3 },
+        "C17" => OpWeights { exec: 3, mixed: 0, covered: 1, freeze: 1, upd: 9, incr: 3, decr: 2, perm: 3, adv: 1, regrant: 0 },
         // C07, C16
-        _ => OpWeights { exec: 9, mixed: 5, freeze: 1, upd: 2, incr: 7, decr: 2, perm: 4, adv: 3, regrant: 0 },
+        _ => OpWeights { exec: 8, mixed: 5, covered: 4, freeze: 1, upd: 2, incr: 7, decr: 2, perm: 4, adv: 3, regrant: 0 },
     };
     if !subkeys {
         w.incr = 0;
@@ -352,6 +358,7 @@ fn op_weights(prop: &str, subkeys: bool) -> OpWeights {
         w.perm = 0;
         w.regrant = 0;
         w.mixed = 0;
+        w.covered = 0;
         if prop != "C17" {
             w.upd += 2;
         }
@@ -361,7 +368,7 @@ fn op_weights(prop: &str, subkeys: bool) -> OpWeights {
 
 fn msg_weights(prop: &str) -> MsgWeights {
     match prop {
-        "C08" => MsgWeights { send: 60, burn: 2, staking: 1, distr: 1, other: 0 },
+        "C08" => MsgWeights { send: 120, burn: 2, staking: 1, distr: 1, other: 0 },
         "C17" => MsgWeights { send: 20, burn: 1, staking: 2, distr: 2, other: 1 },
         _ => MsgWeights { send: 22, burn: 4, staking: 3, distr: 3, other: 1 },
     }
@@ -386,19 +393,20 @@ fn op_group(prop: &str, subkeys: bool) -> BoxedStrategy<Vec<Op>> {
                 Op::Execute { by, msgs }
             })
             .boxed())),
+        (w.covered, one((who(0, 12, 0, 0, 1), proptest::collection::vec(grantable_msg(), 1..=4)).prop_map(|(by, msgs)| Op::Execute { by, msgs }).boxed())),
         (w.freeze, one(who(6, 2, 2, 2, 2).prop_map(|by| Op::Freeze { by }).boxed())),
         (w.upd, one((who(8, 1, 1, 3, 2), admin_list()).prop_map(|(by, admins)| Op::UpdateAdmins { by, admins }).boxed())),
         (w.incr, one((admin_who(), sp(), denom_grant(), amt_grant(), prop_oneof![2 => Just(None), 3 => exp_spec().prop_map(Some)]).prop_map(|(by, spender, denom, amt, exp)| Op::Increase { by, spender, denom, amt, exp }).boxed())),
         (w.decr, one((admin_who(), sp(), denom_decrease(), amt_decrease(), prop_oneof![4 => Just(None), 1 => exp_spec().prop_map(Some)]).prop_map(|(by, spender, denom, amt, exp)| Op::Decrease { by, spender, denom, amt, exp }).boxed())),
         (w.perm, one((admin_who(), sp(), perm_bits()).prop_map(|(by, spender, perm)| Op::SetPermissions { by, spender, perm }).boxed())),
         (w.adv, one((0u8..4, 0u16..40).prop_map(|(blocks, secs)| Op::Advance { blocks, secs }).boxed())),
-        (w.regrant, (0u8..N_ACTORS as u8, (0u8..3).prop_map(Den::Ix), 1u128..500, prop_oneof![(0i32..3).prop_map(ExpSpec::Height), (0i64..12).prop_map(ExpSpec::Time)], 0u8..4, proptest::collection::vec(msg_spec(MsgWeights { send: 1, burn: 0, staking: 0, distr: 0, other: 0 }), 1..=2), 1u128..500, exp_spec())
+        (w.regrant, (any::<u16>(), (0u8..3).prop_map(Den::Ix), 1u128..500, prop_oneof![(1i32..4).prop_map(ExpSpec::Height), (1i64..15).prop_map(ExpSpec::Time)], 0u8..4, proptest::collection::vec(msg_spec(MsgWeights { send: 1, burn: 0, staking: 0, distr: 0, other: 0 }), 1..=2), 1u128..500, exp_spec())
             .prop_map(|(s, denom, g1, e1, adv, msgs, g2, e2)| {
                 vec![
-                    Op::Increase { by: Who::Admin(0), spender: Sp::Addr(s), denom: denom.clone(), amt: Amt::Abs(g1), exp: Some(e1) },
+                    Op::Increase { by: Who::Admin(0), spender: Sp::NonAdmin(s), denom: denom.clone(), amt: Amt::Abs(g1), exp: Some(e1) },
                     Op::Advance { blocks: adv, secs: adv as u16 * 5 },
-                    Op::Execute { by: Who::Actor(s), msgs },
-                    Op::Increase { by: Who::Admin(0), spender: Sp::Addr(s), denom, amt: Amt::Abs(g2), exp: Some(e2) },
+                    Op::Execute { by: Who::NonAdmin(s), msgs },
+                    Op::Increase { by: Who::Admin(0), spender: Sp::NonAdmin(s), denom, amt: Amt::Abs(g2), exp: Some(e2) },
                 ]
             })
             .boxed()),
@@ -429,7 +437,28 @@ pub fn case_strategy(prop: &str, tier: Tier) -> BoxedStrategy<Case> {
     let p_mutable = if prop == "C17" { 0.8 } else { 0.9 };
     proptest::bool::weighted(p_subkeys)
         .prop_flat_map(move |subkeys| {
-            let ops = proptest::collection::vec(op_group(&prop, subkeys), 0..max_groups).prop_map(|g| g.into_iter().flatten().collect::<Vec<_>>());
+            // subkeys histories usually start with a few grants so that subkeys are live early
+            let prologue = if subkeys {
+                proptest::collection::vec(
+                    prop_oneof![
+                        5 => (any::<u16>(), (0u8..3).prop_map(Den::Ix), 20u128..2000, prop_oneof![3 => Just(None), 1 => Just(Some(ExpSpec::Never)), 2 => (5i32..40).prop_map(|h| Some(ExpSpec::Height(h))), 2 => (30i64..400).prop_map(|t| Some(ExpSpec::Time(t)))])
+                            .prop_map(|(k, denom, g, exp)| Op::Increase { by: Who::Admin(0), spender: Sp::NonAdmin(k), denom, amt: Amt::Abs(g), exp }),
+                        2 => (any::<u16>(), perm_bits()).prop_map(|(k, perm)| Op::SetPermissions { by: Who::Admin(0), spender: Sp::NonAdmin(k), perm }),
+                    ],
+                    0..=4,
+                )
+                .boxed()
+            } else {
+                Just(vec![]).boxed()
+            };
+            let groups = prop_oneof![
+                1 => proptest::collection::vec(op_group(&prop, subkeys), 0..12),
+                4 => proptest::collection::vec(op_group(&prop, subkeys), 12..max_groups),
+            ];
+            let ops = (prologue, groups).prop_map(|(mut p, g)| {
+                p.extend(g.into_iter().flatten());
+                p
+            });
             let probes = proptest::collection::vec(probe(subkeys), n_probes..=n_probes);
             (admin_list(), proptest::bool::weighted(p_mutable), ops, probes).prop_map(move |(admins, mutable, ops, probes)| Case { subkeys, admins, mutable, ops, probes })
         })
@@ -785,7 +814,16 @@ fn resolve_who(wh: &Who, w: &World, o: &Obs, t: &Track) -> usize {
         Who::Actor(i) => *i as usize % N_SENDERS,
         Who::Admin(k) => choose(*k, admins),
         Who::Granted(k) => choose(*k, (0..N_SENDERS).filter(|i| !admins.contains(i) && t.ever_granted.contains(i)).collect()),
+        Who::Holding(k) => {
+            let holding: Vec<usize> = (0..N_SENDERS).filter(|i| !admins.contains(i) && (!o.allow[*i].bal.is_empty() || o.perms[*i] != Permissions::default())).collect();
+            if holding.is_empty() {
+                choose(*k, (0..N_SENDERS).filter(|i| !admins.contains(i) && t.ever_granted.contains(i)).collect())
+            } else {
+                choose(*k, holding)
+            }
+        }
         Who::Plain(k) => choose(*k, (0..N_SENDERS).filter(|i| !admins.contains(i) && !t.ever_granted.contains(i)).collect()),
+        Who::NonAdmin(k) => choose(*k, (0..N_ACTORS).filter(|i| !admins.contains(i)).collect()),
         Who::Removed(k) => choose(*k, (0..N_SENDERS).filter(|i| !admins.contains(i) && t.ever_admin.contains(i)).collect()),
     }
 }
@@ -1026,6 +1064,9 @@ pub fn run_case(prop: &str, case: &Case, ctx: &mut CaseCtx) -> Result<(), Violat
         }
     }
 
+    if !(0..N_SENDERS).any(|i| pre.is_admin(w.senders[i].as_str())) {
+        ctx.flag("no_admin_at_end");
+    }
     // ---------------- non-triviality
     ctx.nontrivial = match prop {
         "C07" => ctx.has("nonadmin_mixed_list") || ctx.has("last_only_forbidden"),
@@ -1064,6 +1105,9 @@ fn check_c07(w: &World, s: &Step, resp: Option<&Response>, pre: &Obs, post: &Obs
         if w.subkeys && msgs.len() >= 2 && forbidden.map(|f| f.0) == Some(msgs.len() - 1) {
             ctx.flag("last_only_forbidden");
             ctx.count(&format!("last_only_forbidden_{}", forbidden.unwrap().1));
+        }
+        if w.subkeys {
+            ctx.count(if pre.allow[s.sender].bal.is_empty() { "exec_nonadmin_without_visible_allowance" } else { "exec_nonadmin_with_visible_allowance" });
         }
         if w.subkeys && !msgs.is_empty() {
             ctx.count(if forbidden.is_none() { "nonadmin_list_covered" } else { "nonadmin_list_not_covered" });
@@ -1151,6 +1195,9 @@ fn check_c08(w: &World, s: &Step, ok: bool, pre: &Obs, post: &Obs, at: &str, ctx
                     }
                 }
             }
+            if !admin {
+                ctx.count(&format!("c08_exec_nonadmin_{}_{}_{}", if t.ever_granted.contains(&s.sender) { "granted" } else { "nevergranted" }, if only_sends { "onlysends" } else { "mixed" }, if ok { "ok" } else { "fail" }));
+            }
             if !ok && !admin && only_sends && t.ever_granted.contains(&s.sender) {
                 let p = &pre.allow[s.sender];
                 if t.expired_now.contains(&s.sender) {
@@ -1195,6 +1242,7 @@ fn check_c08(w: &World, s: &Step, ok: bool, pre: &Obs, post: &Obs, at: &str, ctx
                         ctx.count("regrant_after_expiry");
                     }
                     ctx.count("grant_ok");
+                    ctx.flag("grant_ok");
                 }
             }
         }
@@ -1336,10 +1384,10 @@ impl Family for Cw1Family {
     }
     fn props(&self) -> Vec<PropSpec> {
         vec![
-            PropSpec { id: "C07", quick_cases: 6000, thorough_cases: 30_000, floor: 300, rule: "case = proxy flavour (70% cw1-subkeys, else cw1-whitelist), admin list of 0-3 entries from a 5-address pool (duplicates, invalid strings), mutable flag, up to 40 (thorough 100) op groups: Execute with 0-5 CosmosMsg of all 22 constructible kinds (amounts relative to the caller's visible allowance), Increase/DecreaseAllowance, SetPermissions, UpdateAdmins, Freeze, Advance; callers resolved against the current state (admin, granted subkey, plain, removed admin, fixed index incl. an outsider). Oracle: Execute ok => caller in pre AdminList, or (subkeys) every message covered by the pre-call visible allowance cumulatively in list order / by the pre-call permission flags; ok => Response.messages equal the submitted list (same order, reply_on never, no gas limit); non-Execute calls return no messages. Non-trivial: a non-admin caller submitted >=2 messages of >=2 kinds, or a list of >=2 messages whose last message is the only one its grants do not cover.", assumptions: ASSUME },
-            PropSpec { id: "C08", quick_cases: 4000, thorough_cases: 20_000, floor: 150, rule: "cw1-subkeys only; same case type weighted towards Increase/Decrease (expiry none or relative to the moving block), Execute with 1-5 bank sends of 0-3 coins (same denom twice, zero amounts, ungranted denoms; amounts as fractions / remainder of the visible allowance), Advance, and a grant;advance;spend;re-grant arm. Oracle on the Allowance/Permissions queries of 6 addresses before and after every call: exact per-denom deduction of a non-admin's relayed sends, sends <= pre-visible allowance, exact increase (from the visible allowance, i.e. from zero once expired) / saturating decrease, frame condition for every other address and call, time only hides allowances, ledger relayed <= granted. Non-trivial: >=1 successful spend with >=2 sends or >=2 denoms, >=1 spend refused for amount or expiry, >=1 expiry crossed followed by a successful re-grant.", assumptions: ASSUME },
-            PropSpec { id: "C16", quick_cases: 2000, thorough_cases: 10_000, floor: 150, rule: "states reached by C07-style histories of up to 25 (thorough 50) op groups on both proxies; every message of every Execute op is probed on the state before the call and 20 generated (valid sender, message) probes on the final state: CanExecute == (Execute{msgs:[msg]} on a clone of the store returns Ok). Non-trivial: the case contains >=1 non-admin probe answered true and >=1 bank-send probe of a subkey that holds or held an allowance answered false (amount or expiry).", assumptions: ASSUME },
-            PropSpec { id: "C17", quick_cases: 5000, thorough_cases: 20_000, floor: 250, rule: "both proxies (50/50), initial admin lists incl. empty/duplicates, 20% immutable; up to 40 (thorough 100) ops weighted towards UpdateAdmins/Freeze by current admins, removed admins, subkeys and strangers plus allowance/permission/Execute calls. Oracle: AdminList compared before/after every call (changes only by a successful UpdateAdmins/Freeze of a sender in the pre list while pre mutable; those calls never succeed otherwise; once immutable the response is identical forever); Allowance/Permissions of 6 addresses change only in successful calls of a pre-list admin, except a subkey's own spending. Non-trivial: >=1 successful UpdateAdmins that removes its sender, or a frozen proxy (Freeze or immutable instantiation) followed by >=2 UpdateAdmins/Freeze attempts of which >=1 by a listed admin.", assumptions: ASSUME },
+            PropSpec { id: "C07", quick_cases: 15_000, thorough_cases: 30_000, floor: 3000, rule: "case = proxy flavour (70% cw1-subkeys, else cw1-whitelist), admin list of 0-3 entries from a 5-address pool (duplicates, invalid strings), mutable flag, up to 40 (thorough 100) op groups: Execute with 0-5 CosmosMsg of all 22 constructible kinds (amounts relative to the caller's visible allowance), Increase/DecreaseAllowance, SetPermissions, UpdateAdmins, Freeze, Advance; callers resolved against the current state (admin, granted subkey, plain, removed admin, fixed index incl. an outsider). Oracle: Execute ok => caller in pre AdminList, or (subkeys) every message covered by the pre-call visible allowance cumulatively in list order / by the pre-call permission flags; ok => Response.messages equal the submitted list (same order, reply_on never, no gas limit); non-Execute calls return no messages. Non-trivial: a non-admin caller submitted >=2 messages of >=2 kinds, or a list of >=2 messages whose last message is the only one its grants do not cover.", assumptions: ASSUME },
+            PropSpec { id: "C08", quick_cases: 10_000, thorough_cases: 20_000, floor: 500, rule: "cw1-subkeys only; same case type weighted towards Increase/Decrease (expiry none or relative to the moving block), Execute with 1-5 bank sends of 0-3 coins (same denom twice, zero amounts, ungranted denoms; amounts as fractions / remainder of the visible allowance), Advance, and a grant;advance;spend;re-grant arm. Oracle on the Allowance/Permissions queries of 6 addresses before and after every call: exact per-denom deduction of a non-admin's relayed sends, sends <= pre-visible allowance, exact increase (from the visible allowance, i.e. from zero once expired) / saturating decrease, frame condition for every other address and call, time only hides allowances, ledger relayed <= granted. Non-trivial: >=1 successful spend with >=2 sends or >=2 denoms, >=1 spend refused for amount or expiry, >=1 expiry crossed followed by a successful re-grant.", assumptions: ASSUME },
+            PropSpec { id: "C16", quick_cases: 8000, thorough_cases: 25_000, floor: 1200, rule: "states reached by C07-style histories of up to 25 (thorough 50) op groups on both proxies; every message of every Execute op is probed on the state before the call and 20 generated (valid sender, message) probes on the final state: CanExecute == (Execute{msgs:[msg]} on a clone of the store returns Ok). Non-trivial: the case contains >=1 non-admin probe answered true and >=1 bank-send probe of a subkey that holds or held an allowance answered false (amount or expiry).", assumptions: ASSUME },
+            PropSpec { id: "C17", quick_cases: 12_000, thorough_cases: 40_000, floor: 2300, rule: "both proxies (50/50), initial admin lists incl. empty/duplicates, 20% immutable; up to 40 (thorough 100) ops weighted towards UpdateAdmins/Freeze by current admins, removed admins, subkeys and strangers plus allowance/permission/Execute calls. Oracle: AdminList compared before/after every call (changes only by a successful UpdateAdmins/Freeze of a sender in the pre list while pre mutable; those calls never succeed otherwise; once immutable the response is identical forever); Allowance/Permissions of 6 addresses change only in successful calls of a pre-list admin, except a subkey's own spending. Non-trivial: >=1 successful UpdateAdmins that removes its sender, or a frozen proxy (Freeze or immutable instantiation) followed by >=2 UpdateAdmins/Freeze attempts of which >=1 by a listed admin.", assumptions: ASSUME },
         ]
     }
     fn strategy(&self, prop: &str, tier: Tier) -> BoxedStrategy<Case> {
